@@ -99,7 +99,7 @@ def graphs(tier):
 
 
 def shards(tier):
-    return [("G", i) for i in range(NSHARDS)] + [("H", 0), ("H", 1), ("H", 2), ("H", 3), ("H", 4), ("F", 0)]
+    return [("G", i) for i in range(NSHARDS)] + [("H", 0), ("H", 1), ("H", 2), ("H", 3), ("H", 4), ("H", 5), ("F", 0)]
 
 
 ERRS = None
@@ -302,7 +302,10 @@ H4_FILES = {"P/__init__.py": "", "P/sub.py": "from Q import thing\nclass K:\n   
 # alias), then R arrives, whose wildcard import into P displaces the function at the end of that chain by a dangling alias
 H5_FILES = {"P/__init__.py": "def obj(): ...\n\nfrom R import *\n", "P/api.py": "from P import obj\n", "P/sub.py": "from P.api import obj as so\n", "Q/__init__.py": "from P.api import *\n",
             "R/__init__.py": "from missing import obj\n"}
-FILESETS = [None, H2_FILES, H3_FILES, H4_FILES, H5_FILES]  # (index 0: H_FILES, defined above)
+# a chain of four import aliases ending at a function that a wildcard import (of a package loaded later) displaces by a dangling alias: every link must end up unresolved
+H6_FILES = {"P/__init__.py": "", "P/m.py": "def x(): ...\nfrom Q import *\n", "P/l1.py": "from P.m import x\n", "P/l2.py": "from P.l1 import x\n", "P/l3.py": "from P.l2 import x\n",
+            "P/l4.py": "from P.l3 import x\n", "P/sub.py": "from P.l4 import x as sx\n", "Q/__init__.py": "from missing import x\n"}
+FILESETS = [None, H2_FILES, H3_FILES, H4_FILES, H5_FILES, H6_FILES]  # (index 0: H_FILES, defined above)
 H_OPS = [("load", "P"), ("load", "Q"), ("load", "P.sub"), ("load", "R")] + [("resolve", i, e) for i in (False, True) for e in (None, False, True)]
 
 
